@@ -59,6 +59,40 @@ def generic_maps(maps, table, side):
     return out
 
 
+def statement_agreement(prog, cg, eff, chk, R1, R2, R3, order, cats, v1lo, v1hi, v2lo, v2hi):
+    """Statement-level rules on the track tables of both generations (shared with C06): shape (R1),
+    column <-> field agreement incl. key/value tables, sibling filters and range copies (R2),
+    name resolution against the DDL (R3).  A rule id given as None is skipped."""
+    # ---- v1 statements -------------------------------------------------------------
+    funcs = v1_storage_functions(prog)
+    for f in funcs:
+        chk.analysed(f)
+    maps = [m for m in rowrules.expand_sites(prog, cg, eff, funcs)
+            if (m.stmt.table or '').lower() in TRACK_TABLES]
+    if R1 is not None:
+        c18.shape(chk, R1, maps)
+    _keyvalue_agreement(chk, R2, maps)
+    _filter_agreement(chk, R2, maps)
+    range_copy_agreement(chk, R2, maps)
+    for table in ('Track', 'PerformanceData'):
+        for side in ('write', 'read'):
+            gm = generic_maps(maps, table, side)
+            if gm:
+                c18.agreement(chk, R2, gm, table, 'engine_storage')
+    if R3 is not None:
+        c18.resolve(chk, R3, maps, order, cats, v1lo, v1hi)
+    # ---- v2 track table (statement rules shared with C18) ----------------------------
+    tfuncs = c18.table_functions(prog, 'track_table')
+    tmaps = rowrules.expand_sites(prog, cg, eff, tfuncs)
+    if R1 is not None:
+        c18.shape(chk, R1, tmaps)
+    c18.agreement(chk, R2, c18.field_maps(tmaps, 'Track', V2 + 'track_row'), 'Track', 'track_table')
+    range_copy_agreement(chk, R2, tmaps)
+    if R3 is not None:
+        c18.resolve(chk, R3, tmaps, order, cats, v2lo, v2hi)
+    return funcs, maps, tmaps
+
+
 def run(tier='quick'):
     prog = program.load()
     cg = callgraph.get(prog)
@@ -91,29 +125,7 @@ def run(tier='quick'):
     v1lo, v1hi = 0, v2lo - 1
     v2hi = max(order.index(e) for e in supported)
 
-    # ---- v1 statements -------------------------------------------------------------
-    funcs = v1_storage_functions(prog)
-    for f in funcs:
-        chk.analysed(f)
-    maps = [m for m in rowrules.expand_sites(prog, cg, eff, funcs)
-            if (m.stmt.table or '').lower() in TRACK_TABLES]
-    c18.shape(chk, R1, maps)
-    _keyvalue_agreement(chk, R2, maps)
-    _filter_agreement(chk, R2, maps)
-    range_copy_agreement(chk, R2, maps)
-    for table in ('Track', 'PerformanceData'):
-        for side in ('write', 'read'):
-            gm = generic_maps(maps, table, side)
-            if gm:
-                c18.agreement(chk, R2, gm, table, 'engine_storage')
-    c18.resolve(chk, R3, maps, order, cats, v1lo, v1hi)
-    # ---- v2 track table (statement rules shared with C18) ----------------------------
-    tfuncs = c18.table_functions(prog, 'track_table')
-    tmaps = rowrules.expand_sites(prog, cg, eff, tfuncs)
-    c18.shape(chk, R1, tmaps)
-    c18.agreement(chk, R2, c18.field_maps(tmaps, 'Track', V2 + 'track_row'), 'Track', 'track_table')
-    range_copy_agreement(chk, R2, tmaps)
-    c18.resolve(chk, R3, tmaps, order, cats, v2lo, v2hi)
+    funcs, maps, tmaps = statement_agreement(prog, cg, eff, chk, R1, R2, R3, order, cats, v1lo, v1hi, v2lo, v2hi)
 
     # ---- R5 ----------------------------------------------------------------------------
     _codec_agreement(prog, chk, R5, maps + tmaps)
@@ -133,6 +145,9 @@ def run(tier='quick'):
         for c in calls:
             getattr(chk, c[0])(*c[1], **c[2])
     chk.extra['representative_versions'] = ['%s %s' % (g, order[v]) for g, v in reps]
+    R7 = chk.rule('R7', 'no member update is made on a local copy that is then dropped (conversion layer between '
+                        'snapshot fields and rows / blobs)', floor=20)
+    rowrules.lost_updates(prog, chk, R7)
     R6 = chk.rule('R6', 'the util helpers that lift a conversion over std::optional between nullable columns and snapshot fields yield a value exactly when given one (no stored value is read back as "not set")', floor=4)
     from .. import rowrules as _rr
     _rr.optional_lifts(prog, chk, R6)
@@ -321,6 +336,14 @@ def _codec_class_of_enclosing(caller, callnode):
             if nm in ('decode', 'from_blob') and any(x.get('id') == cid for a in children(n)[1:] for x in walk(a)):
                 return program.norm_type_name(n.get('type') or '').split('::')[-1]
     return None
+
+
+def _lambda_param_types(sink):
+    for n in walk(sink):
+        if n.get('kind') == 'CXXMethodDecl' and n.get('name') == 'operator()':
+            return [re.sub(r'\bconst\b|&| ', '', program.norm_type_name(p.get('type') or ''))
+                    for p in children(n) if p.get('kind') == 'ParmVarDecl']
+    return []
 
 
 def _lambda_param_names(sink):
@@ -588,11 +611,15 @@ def range_copy_agreement(chk, rid, maps):
                         sig = '%s|%s' % (src.key(), ','.join(v.split('<')[0] for v in src.via))
                     per_col[col.lower()][sig].append(sm)
             elif kind == 'select':
-                for text, col, tgt in sm.out:
+                ptypes = _lambda_param_types(strip(sm.site.sink)) if sm.site.sink is not None else []
+                for i, (text, col, tgt) in enumerate(sm.out):
                     if not col or not tgt:
                         continue
                     via = tgt[3] if tgt[0] == 'field' and len(tgt) > 3 else []
                     sig = '%s|%s' % (tgt[2] if tgt[0] == 'field' else tgt[0], ','.join(v.split('<')[0] for v in via))
+                    # the C++ type the column is fetched into (a narrower type in one copy truncates there)
+                    if i < len(ptypes):
+                        sig += '|as ' + ptypes[i]
                     per_col[col.lower()][sig].append(sm)
             where = sm.stmt.select.where if (kind == 'select' and sm.stmt.select is not None) else sm.stmt.where
             res = tuple(sorted(c for c in _conjuncts(where) if not re.match(r'^[\w.]+ = \?$', c)))
